@@ -90,7 +90,8 @@ class C06:
                 elif rr < 0.16:
                     ev[k] = list(rng.choice([b"\xff", b"ok\xc0\x80", b""]))
                 elif rr < 0.3:
-                    ev[k] = list(rng.choice([b"v\xc3\xa9", b"a b", b""]))
+                    # values are passed on as they are: quotes, surrounding blanks and line ends belong to them
+                    ev[k] = list(rng.choice([b"v\xc3\xa9", b"a b", b"", b'"22.04"', b"'alpine'", b" 20230201\n", b'6"', b"\tx ", b"V8"]))
             plan = g8.valid(rng, "plan")
             store = g8.valid(rng, "store") if rng.random() < 0.6 else None
             meta = g8.meta(rng) if rng.random() < 0.6 else None
